@@ -79,6 +79,77 @@ PROPS["C09"]["level_text"] = (
     "excluding hypotheses (no NaN, no -0; no top-level optional; clean absent fields). Tied to the code by regenerated "
     "comparators and op-for-op differential runs on all 30 otelstef types.")
 
+RECV_TB = COMMON_TB + [
+    "Impl model lean/Stef/Receiver.lean is a hand transcription of otelcol/internal/stefreceiver/stef.go (onStream) and "
+    "internal/responder.go (Run, composeBadDataResponse) as a labelled transition system; tie: event traces recorded from "
+    "the real code by h_recv must be accepted event by event by the compiled model (stefmodel, tokens rv/ls/pl)",
+    "the interleaving handed to the model is reconstructed by the harness from the two per-goroutine event sequences "
+    "(values observed on the real code: batch sizes, outcomes, AckRecordId and ranges of every response, exit reason) - "
+    "it is a certificate checked by the Lean model, the Go mirror that finds it is not trusted",
+    "badDataMaxBatchSize = 10 and the 10 ms tick are transcribed, not extracted",
+    "hooks otelcol/verifhooks (build tag verif) re-export the internal Responder, onStream and exporter unchanged",
+]
+
+PROPS["C16"] = {
+    "lean_modules": ["Stef.Props.C16"],
+    "harness": [{"bin": "h_recv", "args": ["c16"], "module_dir": "harness_otelcol", "prebuild": "otelcol_mod", "timeout": 900}],
+    "rule": ("cases = (i) the real Responder against a scripted STEFStream (held sends, sticky send failures) with the "
+             "harness playing onStream's schedule calls, delays randomised around the 10 ms tick; (ii) the real onStream "
+             "loop fed by a real otelstef.MetricsWriter through an in-memory chunk pipe and through loopback gRPC "
+             "(stefgrpc.Client -> StreamServer) with a scripted consumer (accept / consumererror.NewPermanent / transient "
+             "per batch, batches delimited by Flush); (iii) writer/reader RecordCount lockstep with small frame limits. "
+             "Each case records an event trace which must be a run of the Lean LTS and is evaluated directly against the "
+             "property. A case is non-trivial when it has at least one permanently rejected batch and at least two "
+             "responses; distinct by hash of its event trace"),
+    "trusted_base": RECV_TB,
+    "assumptions": [
+        "a failed SendDataResponse is terminal for the stream (gRPC ServerStream semantics): sendOk is not enabled after sendFail",
+        "record ids are 1-based: the k-th record has id k = RecordCount() after reading it (how receiver and exporter use them)",
+        "Go select picks any ready branch; time.Ticker may fire at any moment (tick always enabled when Run is idle)",
+    ],
+}
+PROPS["C16"]["level_text"] = (
+    "PARTIAL. Theorems over every run (every interleaving of decoding loop, Responder select and response stream, every "
+    "consumer-outcome sequence, batch size and send-failure point) of the Lean LTS transcribing onStream + Responder.Run as "
+    "written: lockstep of writer/reader record counters; ack <= decoded in every run; ack_after_consume, ack_monotone and "
+    "bad_batch_once_exact are FALSE for the code as written (negations proved from the run observed on the real code; "
+    "known findings ack-before-bad-report, ack-regress, bad-range-off-by-one) and proved in _partial form under explicit "
+    "excluding hypotheses; stream_continues. Real goroutine interleavings are only sampled by h_recv (the recorded traces "
+    "must be runs of the model and are checked directly against the property); the theorems are about every interleaving "
+    "of the model, not of the Go runtime.")
+
+PROPS["C19"] = {
+    "lean_modules": ["Stef.Props.C19"],
+    "harness": [{"bin": "h_recv", "args": ["c19"], "module_dir": "harness_otelcol", "prebuild": "otelcol_mod", "timeout": 1200}],
+    "rule": ("cases = one to three real exporters (verifhooks.NewExporter, compression none/zstd) connected over loopback "
+             "gRPC to one real receiver (stefgrpc.NewStreamServer + verifhooks.OnStream per stream) with an accepting "
+             "consumer; 1..6 goroutines per exporter call PushMetrics concurrently with random pauses around the 100 ms "
+             "flusher and the 10 ms responder tick; every data point carries a unique id. Checked per case: multiset of "
+             "canonical data points delivered = pushed, pushes not interleaved inside a stream, every delivered batch id <= "
+             "last ack seen by the exporter (bounded wait), acks non-decreasing; the per-stream trace (push/emit/deliver/"
+             "accept/tick/ackrecv) must be a run of the Lean pipeline model incl. the exporter's final (lastSent, lastAcked, "
+             "len(sentPendingAck)). A case is non-trivial when at least two pushes shared one frame or one push was "
+             "concurrent with another; distinct by hash of the per-stream trace"),
+    "trusted_base": RECV_TB + [
+        "Impl model lean/Stef/Pipeline.lean: message-level model of exporter.go (pushMetrics under writeMutex, flusher, "
+        "onGrpcAck/sentPendingAck), FIFO chunk stream, receiver loop with an accepting consumer and the Responder tick",
+    ],
+    "assumptions": [
+        "gRPC stream = reliable FIFO of chunks in both directions, no transport failure (exactly_once, eventually_acked)",
+        "OTLP -> sorted STEF records -> OTLP is content preserving per data point (property C17) and chunk transport is byte exact (C15)",
+        "flusher and responder tick are fair (liveness is stated as: the canonical continuation is always enabled)",
+        "the consumer accepts every batch",
+    ],
+}
+PROPS["C19"]["level_text"] = (
+    "PARTIAL. Theorems over every run of a message-level Lean model (pushes serialised by the write mutex and keyed by record "
+    "ids, flusher, FIFO chunk stream, receiver, consumer, responder tick, exporter ack bookkeeping): exactly_once (list "
+    "equality pushed = delivered ++ in-flight ++ unflushed per stream, hence multiset equality at quiescence), "
+    "eventually_acked (from every reachable state the canonical continuation flush, deliver*, tick, ackrecv* is enabled and "
+    "ends with every delivered batch id <= last ack received), pending map lags one ack (pending-ack-off-by-one, not a "
+    "violation of C19 as stated). Real goroutine interleavings (concurrent PushMetrics, flusher, per-stream receiver "
+    "goroutines, gRPC) are only sampled by h_recv; the theorems are about every interleaving of the model.")
+
 HOOK_COMMITS = ["dfe47e0", "f85f827"]
 NOT_CLAIMED = {
     "C11": ("byte equality between checked-in files and the output of text/template + gofmt (and the Java templates): "
